@@ -96,9 +96,10 @@ package environment
 //@   ghostvar checked bool = false
 //@   ghostvar checkErr bool = false
 //@   ghostvar fired bool = false
-//@   on aftercall (*sync.RWMutex).TryLock when arg0 == env.transitionMutex : held = result
-//@   on call (*sync.RWMutex).Lock when arg0 == env.transitionMutex : assert !held ; held = true
-//@   on defer (*sync.RWMutex).Unlock when arg0 == env.transitionMutex : assert held ; willUnlock = true
+//@   on aftercall (*sync.RWMutex).TryLock when recvfield == "transitionMutex" : held = result
+//@   on call (*sync.RWMutex).Lock when recvfield == "transitionMutex" : assert !held ; held = true
+//@   on defer (*sync.RWMutex).Unlock when recvfield == "transitionMutex" : assert held ; willUnlock = true
+//@   on call (*sync.RWMutex).Unlock when recvfield == "transitionMutex" : held = false
 //@   on call .check : assert held && willUnlock ; checked = true
 //@   on aftercall .check : checkErr = (result != nil)
 //@   on call (*fsm.FSM).Event : assert held && willUnlock && checked && !checkErr && !fired ; fired = true
@@ -116,3 +117,49 @@ package environment
 //@   on call (*fsm.Event).Cancel : cancelled = true
 //@   ensures wasCancelled ==> !done
 //@   ensures doErr ==> cancelled
+
+// ---------------------------------------------------------------------------------------------------------
+// C01: the transition table is exactly the documented graph, and the state is forced only to ERROR or DONE.
+//@ func newEnvironment(userVars map[string]string, newId uid.ID) (env *Environment, err error)
+//@   property C01
+//@   literal fsm.Events == "DEPLOY|STANDBY|DEPLOYED;CONFIGURE|DEPLOYED|CONFIGURED;RESET|CONFIGURED|DEPLOYED;START_ACTIVITY|CONFIGURED|RUNNING;STOP_ACTIVITY|RUNNING|CONFIGURED;EXIT|CONFIGURED,DEPLOYED,STANDBY|DONE;GO_ERROR|STANDBY,CONFIGURED,DEPLOYED,RUNNING|ERROR;RECOVER|ERROR|DEPLOYED"
+
+//@ func (env *Environment) setState(state string)
+//@   property C01
+//@   closedworld
+//@   requires state == "ERROR" || state == "DONE"
+
+// Every caller of setState (closed world, see 'closedworld' above); the only non-literal argument is the watcher's
+// wfState.String(), which is "ERROR" because the watcher arms the timer only under wfState == ERROR and never assigns
+// wfState afterwards.
+//@ closure (*Environment).scheduleAutoStopTransition #1
+//@   property C01
+//@ closure (*Manager).CreateAutoEnvironment #2
+//@   property C01
+//@ closure (*Manager).CreateEnvironment #2#1
+//@   property C01
+//@ closure (*Manager).handleIntegratedServiceEvent #1
+//@   property C01
+// Teardown runs under the environment's transitionMutex (so it is serialised with transitions) and forces DONE only there.
+//@ func (envs *Manager) TeardownEnvironment(environmentId uid.ID, force bool) (err error)
+//@   property C01 C06
+//@   ghostvar held bool = false
+//@   ghostvar willUnlock bool = false
+//@   ghostvar doneSet bool = false
+//@   on aftercall (*sync.RWMutex).TryLock when recvfield == "transitionMutex" : held = result
+//@   on call (*sync.RWMutex).Lock when recvfield == "transitionMutex" : assert !held ; held = true
+//@   on defer (*sync.RWMutex).Unlock when recvfield == "transitionMutex" : assert held ; willUnlock = true
+//@   on call (*sync.RWMutex).Unlock when recvfield == "transitionMutex" : held = false
+//@   on call (*Environment).setState : assert held && willUnlock && arg1 == "DONE" && !doneSet ; doneSet = true
+//@   on call (*Manager).cancelCallsPendingAwait : assert held
+//@   ensures err == nil ==> doneSet
+
+//@ closure (*Environment).subscribeToWfState #1#1
+//@   property C01 C03
+//@   requires wfState == sm.ERROR
+
+//@ closure (*Environment).subscribeToWfState #1
+//@   property C01 C03
+//@   ghostvar armed bool = false
+//@   on call time.AfterFunc : assert wfState == sm.ERROR && !armed ; armed = true
+//@   on store var.wfState : assert !armed
